@@ -1,7 +1,7 @@
 """C14 - incremental/precomputed paths equal recomputation (partial claim: delegation + merge progress)."""
 from .. import schemes
 
-EXPL = ('Partial claim. Equality of the resulting group elements is NOT decided, nor adjust_nondelegable\'s skip loops (their '
+EXPL = ('(R-SCHEME) every path segment (entry -> loop head, one loop iteration, loop exit -> return) of the scheme routines is interpreted in the discrete-log domain - group elements are formal Z_r-linear combinations of base symbols with polynomial coefficients, pairings expand bilinearly, cursors and indices are symbolic - and its effect table is compared with the table the construction prescribes for the segment\'s category (attribute present / hidden / slot free in the parent / flags); with the exit conditions this is an inductive argument valid for every number of slots and every attribute list: which generator, which exponent, which randomness reaches which component is decided for all values at once. Partial claim. Equality of the resulting group elements is NOT decided, nor adjust_nondelegable\'s skip loops (their '
         'intended treatment of hidden entries cannot be recovered from code or documentation). Decided: (R-WRAP) encrypt, sign '
         'and verify are exactly precompute(tmp, params, attrs) followed by the _precomputed form receiving tmp and every other '
         'parameter unchanged, with the verdict returned - the direct and precomputed forms are interchangeable by construction; '
